@@ -122,7 +122,8 @@ def _wave(rng, dtype, ncol, states, bad_rate):
         row = []
         for _ in range(ncol):
             if rng.random() < bad_rate:
-                row.append(rng.choice([8, 9, hi, lo, 100]) if dtype != "bool" else rng.choice([0, 1]))
+                # not digital states: 8 and up, and for int8 the negative values (which index a table from its end)
+                row.append(rng.choice([8, 9, hi, lo, 100, -1, -2, -3, -5, -8, -9]) if dtype != "bool" else rng.choice([0, 1]))
             else:
                 row.append(rng.choice(states))
         buf.append([max(lo, min(hi, v)) for v in row])
